@@ -38,7 +38,7 @@ func PreludeFiles() (files []PreludeFile) {
 	}
 
 	add(`prelude.js`, prelude)
-	add(`numberic.js`, numeric)
+	add(`numeric.js`, numeric)
 	add(`types.js`, types)
 	add(`goroutines.js`, goroutines)
 	add(`jsmapping.js`, jsmapping)
